@@ -150,8 +150,123 @@ def harness_text(db, inp, oracle_bits, output=0, tag="c"):
     return "db %s\noracle %d\noutput %d\ninput %s\nrun %s\n" % (db.encode().hex(), oracle_bits, output, inp.encode().hex(), tag)
 
 
+
+# ----------------------------------------------------------------------------------------------- independent reading of the input
+INV_OPTS = ["solutions", "uncertainty", "uncertainties", "balances", "phase_data", "range", "minimal", "minimum", "balance", "bal",
+            "sol", "phases", "ranges", "tolerance", "u_water", "uncertainty_water", "force", "force_solution", "force_solutions",
+            "isotopes", "mineral_water", "phase", "multiple_precision", "mp_tolerance", "censor_mp", "lon_netpath", "pat_netpath"]
+
+
+def _numbers(words):
+    out = []
+    for w in words:
+        try:
+            out.append(float(w))
+        except ValueError:
+            break
+    return out
+
+
+def read_declared(text):
+    """what the INPUT TEXT declares (first INVERSE_MODELING block): solution numbers, global uncertainties, -balances entries
+    in order (name, list), pH uncertainties. Pure text reading, nothing from the engine."""
+    lines = []
+    for raw in text.split("\n"):
+        raw = raw.split("#")[0]
+        for part in raw.split(";"):
+            if part.strip():
+                lines.append(part.strip())
+    try:
+        i0 = next(i for i, l in enumerate(lines) if l.split()[0].upper().startswith("INVERSE_MODELING"))
+    except StopIteration:
+        return None
+    d = {"solns": [], "unc": [], "entries": [], "ph": None}
+    cur = None
+    keywords = ("END", "SOLUTION", "PHASES", "SELECTED_OUTPUT", "USER_PUNCH", "EXCHANGE_SPECIES", "TITLE", "REACTION", "MIX", "USE",
+                "SAVE", "INVERSE_MODELING", "SOLUTION_SPREAD", "KNOBS", "PRINT")
+    for l in lines[i0 + 1:]:
+        w = l.split()
+        if w[0].upper() in keywords or w[0].upper().split("_")[0] in ("SOLUTION",):
+            break
+        if w[0].startswith("-"):
+            tok = w[0][1:].lower()
+            opt = next((o for o in INV_OPTS if o.startswith(tok)), None)
+            rest = w[1:]
+            cur = None
+            if opt in ("solutions", "sol"):
+                d["solns"] = [int(x) for x in _numbers(rest)]
+            elif opt in ("uncertainty", "uncertainties"):
+                d["unc"] = _numbers(rest)
+            elif opt in ("balances", "balance", "bal"):
+                cur = "bal"
+                w = rest
+                if not w:
+                    continue
+            else:
+                continue
+        if cur == "bal" and w:
+            name = w[0].replace("(+", "(")
+            vals = _numbers(w[1:])
+            if name.lower() == "ph":
+                d["ph"] = vals
+            else:
+                d["entries"].append((name, vals))
+    if not d["solns"]:
+        d["solns"] = [1, 2]
+    return d
+
+
+def pad(vals, ns, default):
+    if not vals:
+        return list(default)
+    return (list(vals) + [vals[-1]] * ns)[:ns] if len(vals) < ns else list(vals[:ns])
+
+
+def declared_uncertainties(text, su):
+    """declared uncertainty of every (element row, solution) and of pH from the input text; row names and the element each
+    valence-state row belongs to come from the database structure (ELT lines), never from inv_ptr->elts[..].uncertainties.
+    Returns (unc[e][q], ph[q], lean_command) or None"""
+    d = read_declared(text)
+    if d is None:
+        return None
+    ns = len(su["solns"])
+    if len(d["solns"]) != ns:
+        return None
+    glob = pad(d["unc"], ns, [0.05] * ns)
+    ph = pad(d["ph"], ns, [0.05] * ns) if d["ph"] is not None else [0.05] * ns
+    elts = su["elts"]
+    names = [e["name"] for e in elts]
+    low = {n.lower(): n for n in names}
+    prims = sorted({e["prim"] for e in elts})
+    unc = [list(glob) for _ in elts]
+    ents = []
+    for name, vals in d["entries"]:
+        lst = pad(vals, ns, glob)
+        redox_element = "(" not in name and any(e["prim"].lower() == name.lower() and e["name"].lower() != name.lower() for e in elts)
+        ents.append((name, lst, redox_element))
+    for name, lst, redox_element in ents:                      # an element name covers all its valence states
+        if redox_element:
+            for k, e in enumerate(elts):
+                if e["prim"].lower() == name.lower():
+                    unc[k] = list(lst)
+    for name, lst, redox_element in ents:                      # valence states / other masters: that row only
+        if not redox_element and name.lower() in low:
+            unc[names.index(low[name.lower()])] = list(lst)
+    cmd = ["unc", "ROWS"]
+    for k, e in enumerate(elts):
+        cmd += [str(k), str(prims.index(e["prim"]))]
+    cmd += ["DFLT"] + [d2h(v) for v in glob]
+    for name, lst, redox_element in ents:
+        if redox_element:
+            hit = [pp for pp in prims if pp.lower() == name.lower()]
+            if hit:
+                cmd += ["ENT", "e", str(prims.index(hit[0])), str(len(lst))] + [d2h(v) for v in lst]
+        elif name.lower() in low:
+            cmd += ["ENT", "r", str(names.index(low[name.lower()])), str(len(lst))] + [d2h(v) for v in lst]
+    return unc, ph, " ".join(cmd)
+
 # ----------------------------------------------------------------------------------------------- pmodel input
-def problem_lines(su, totals_override=None):
+def problem_lines(su, totals_override=None, unc_override=None, ph_override=None):
     """parsed problem of one set-up → lines for `pmodel inverse`.
     totals_override: per solution a dict elt-name → moles (independent speciation) and "Alkalinity" """
     o = su["opts"]
@@ -171,10 +286,11 @@ def problem_lines(su, totals_override=None):
                 if row >= 0:
                     T[row] += val
             T[ialk] = s["alk"]
-        lines.append("soln %s %s %s %s %s" % (d2h(s["mass_water"] / o["gfw_water"]), d2h(s["ph_unc"]), d2h(s["dalk_dph"]),
+        lines.append("soln %s %s %s %s %s" % (d2h(s["mass_water"] / o["gfw_water"]), d2h(ph_override[q] if ph_override else s["ph_unc"]), d2h(s["dalk_dph"]),
                                               d2h(s["dalk_dc"]), " ".join(d2h(t) for t in T)))
-    for e in elts:
-        lines.append("elt %d %d %d %s %s" % (e["isE"], e["isAlk"], e["alkName"], d2h(e["zalk"]), " ".join(d2h(u) for u in e["unc"])))
+    for k, e in enumerate(elts):
+        uu = unc_override[k] if unc_override is not None else e["unc"]
+        lines.append("elt %d %d %d %s %s" % (e["isE"], e["isAlk"], e["alkName"], d2h(e["zalk"]), " ".join(d2h(u) for u in uu)))
     for p in su["phases"]:
         lines.append("phase %d %d %s %s" % (p["constraint"], p["force"], d2h(p["alk"]),
                                             " ".join("%d %s %s" % (r, d2h(c), d2h(mc)) for r, c, mc in p["tokens"])))
@@ -271,7 +387,7 @@ def bound_of(T, u, toler):
     return 0.0 if c < toler else c
 
 
-def direct_oracle(su, model, totals, tol_print):
+def direct_oracle(su, model, totals, tol_print, unc=None):
     """the property evaluated on the punched values only (fractions, transfers, min, max) with independent totals and
     formula stoichiometry: per chemical element an adjustment within the declared uncertainties must exist"""
     bad = []
@@ -320,7 +436,7 @@ def direct_oracle(su, model, totals, tol_print):
                     T = totals[q].get(su["elts"][e]["name"], 0.0)
                     resid += sg * alpha[q] * T
                     mag += abs(alpha[q] * T)
-                    b = bound_of(T, su["elts"][e]["unc"][q], toler)
+                    b = bound_of(T, (unc[e][q] if unc is not None else su["elts"][e]["unc"][q]), toler)
                     allow += abs(alpha[q]) * (b + toler)
             for i, ph in enumerate(su["phases"]):
                 c = sum(cf for nm, cf in ph["elts"] if nm == E)
@@ -397,8 +513,21 @@ def eval_case(ctx, exe, case, oracle_bits=11):
     toler = o["toler"]
     t1 = max(1e-8, 1e4 * toler)
     t2 = max(1e-6, 1e4 * toler)
-    if totals is not None:
-        cmds += problem_lines(su, totals)
+    decl = declared_uncertainties(case["input"], su)
+    out["stats"]["declared_read"] = decl is not None
+    dunc = dph = None
+    if decl is not None:
+        dunc, dph, unc_cmd = decl
+        cmds.append(unc_cmd)
+        # tie: what tidy_inverse stored = what the input text declares (per row and solution; pH)
+        bad = [(su["elts"][k]["name"], q, su["elts"][k]["unc"][q], dunc[k][q]) for k in range(len(su["elts"])) for q in range(o["nsol"])
+               if not su["elts"][k]["isE"] and su["elts"][k]["unc"][q] != dunc[k][q]]
+        badph = [(q, s["ph_unc"], dph[q]) for q, s in enumerate(su["solns"]) if s and s["ph_unc"] != dph[q]]
+        if bad or badph:
+            out["corr"].append({"what": "uncertainties stored by tidy_inverse differ from the limits declared in the input text",
+                                "rows": [list(map(str, b)) for b in bad[:8]], "ph": badph[:4]})
+    if totals is not None or dunc is not None:
+        cmds += problem_lines(su, totals, dunc, dph)
     capped = {}
     for k, m in enumerate(su["models"]):
         mn, mx = list(m["MIN"]), list(m["MAX"])
@@ -424,6 +553,12 @@ def eval_case(ctx, exe, case, oracle_bits=11):
         cmds.append("search %d %d %d %d %d %s" % (o["nphase"], o["nsol"], o["minimal"], o["range"], forced, " ".join(su["oracle"])))
     mout = pmodel_retry(ctx, "\n".join(cmds) + "\n")
     diffs = compare_matrix(su, mout)
+    ul = next((l for l in mout if l.startswith("UNC")), None)
+    if decl is not None and ul is not None:
+        lean_unc = [[h2d(x) for x in cell.split(",")] if cell else [] for cell in ul.split()[1:]]
+        engine = [e["unc"] for e in su["elts"]]
+        if len(lean_unc) != len(engine) or any(a != b for k, (a, b) in enumerate(zip(lean_unc, engine)) if not su["elts"][k]["isE"]):
+            out["corr"].append({"what": "tidy_inverse uncertainties differ from propagateUnc (Lean) on the declared entries"})
     out["stats"]["matrix_cells"] = sum(len(c) for _, c in su["rows"])
     if diffs:
         out["corr"].append({"what": "setup_inverse matrix differs from setupMatrix", "diffs": [list(map(str, d)) for d in diffs[:8]],
@@ -499,7 +634,7 @@ def eval_case(ctx, exe, case, oracle_bits=11):
         if nz != m["bits"]:
             out["corr"].append({"what": "saved model bits differ from the non-zero pattern of the reported vector", "bits": m["bits"], "nz": nz})
         mcorr = any(c.get("model") == k for c in out["corr"]) or any("cell" in c for c in out["corr"])
-        for b in direct_oracle(su, m, totals, tol_print):
+        for b in direct_oracle(su, m, totals, tol_print, dunc):
             kind = "range" if b.startswith("range") else ("sign" if "-only" in b else ("alpha" if "fraction" in b else "element"))
             mv.append({"kind": kind, "model": k, "text": b})
         if not m["selfcheck"] and not diffs and not mcorr:
